@@ -3,6 +3,7 @@
   Property theorems only; helper lemmas live in Tranp/Lemmas/SymbolJson.lean.
 -/
 import Tranp.Lemmas.SymbolJson
+import Tranp.Lemmas.SymbolJsonExact
 import Tranp.Generated.SymbolTables
 import Tranp.Generated.SymbolDbState
 
@@ -597,5 +598,111 @@ example : isCanonicalDec ['1', '0'] = true ∧ isCanonicalDec ['0'] = true ∧ i
     isCanonicalDec ['+', '1'] = false ∧ isCanonicalDec [] = false ∧
     (expand [.mk ['t'] [.mk ['i'] [], .mk ['i'] []]]).map (fun pk => encPath pk.1) = [['0'], ['0', '.', '0'], ['0', '.', '1']] := by
   decide +kernel
+
+/-! ### nothing is lost: the table after the round trip is the table before it, key by key, `via` included -/
+
+/-- **Frame.** `import_json` changes no entry under a key it is not given a row for (entries of other modules, in particular), and
+    removes none. -/
+theorem import_frame (W : World) (t t1 : Table) (d : List (Str × Row)) (h : importJson W t d = .ok t1)
+    (K : Str) (hK : K ∉ d.map Prod.fst) : dictGet? t1.items K = dictGet? t.items K :=
+  importJson_frame W d t t1 K h (fun kr hkr he => hK (by rw [← he]; exact List.mem_map_of_mem hkr))
+
+/-- **Exact round trip.** Under the hypotheses of `rt` and the `via` invariant (`ViaOK`): after export of `M` and import into the
+    table of the other modules, EVERY key (of `M`, of the other modules, absent ones) has exactly the entry it had — types, node,
+    decl, `via` and attribute forest; and each restored entry serializes to the very row it was imported from (a second export
+    writes the same rows). `rt` compares the description the property names; this adds `via` (serializer.py:57, 84-85) and the
+    entries of the other modules. -/
+theorem rt_exact (W : World) (t b : Table) (M : Str) (d : List (Str × Row)) (hM : M ≠ [])
+    (hb : b.items = t.items.filter (fun ks => modOf ks.1 != M))
+    (hexp : toJson W t (some M) = .ok d)
+    (hord : RefsAvail (baseKeys t M) d)
+    (hwf : ∀ K s, dictGet? t.items K = some s → modOf K = M → SymOK W t s)
+    (hvia : ∀ K s, dictGet? t.items K = some s → modOf K = M → ViaOK W t s) :
+    ∃ T, importJson W b d = .ok T ∧ (∀ K, dictGet? T.items K = dictGet? t.items K) ∧
+      ∀ kr ∈ d, ∃ s, dictGet? T.items kr.1 = some s ∧ serialize W s = kr.2 := by
+  obtain ⟨_, _, hrows, hall⟩ := export_rows W t M hM d hexp
+  have hag : AgreeX b t (baseKeys t M) := by
+    intro r hr
+    unfold baseKeys at hr
+    obtain ⟨v, hv⟩ := dictGet_of_mem_keys _ r hr
+    have h1 := dictGet_filter (fun k => modOf k != M) t.items r
+    rw [hv] at h1
+    split at h1
+    · exact ⟨v, by rw [hb, hv], h1.symm⟩
+    · cases h1
+  obtain ⟨T, hT, hagT⟩ := import_restores_exact W t d b (baseKeys t M)
+    (fun kr hkr => by
+      obtain ⟨hm, s, hs, hr⟩ := hrows kr hkr
+      exact ⟨s, hs, hr, hwf kr.1 s hs hm, hvia kr.1 s hs hm⟩)
+    hord hag
+  have hkey : ∀ K, dictGet? T.items K = dictGet? t.items K := by
+    intro K
+    by_cases hK : K ∈ d.map Prod.fst
+    · obtain ⟨s, h1, h2⟩ := hagT K (List.mem_append.mpr (Or.inr hK))
+      rw [h1, h2]
+    · rw [import_frame W b T d hT K hK, hb, dictGet_filter (fun k => modOf k != M) t.items K]
+      by_cases hm : modOf K = M
+      · have hnone : dictGet? t.items K = none := by
+          cases hg : dictGet? t.items K with
+          | none => rfl
+          | some s => exact absurd (hall (K, s) (mem_of_dictGet _ _ _ hg) hm) hK
+        simp [hm, hnone]
+      · simp [hm]
+  refine ⟨T, hT, hkey, ?_⟩
+  intro kr hkr
+  obtain ⟨_, s, hs, hr⟩ := hrows kr hkr
+  exact ⟨s, by rw [hkey, hs], hr.symm⟩
+
+/-- the exact round trip from the invariants of a loaded table alone (`order` supplies the order law) -/
+theorem rt_loaded_exact (W : World) (t b : Table) (M : Str) (d : List (Str × Row)) (rank : Str → Nat) (hM : M ≠ [])
+    (hb : b.items = t.items.filter (fun ks => modOf ks.1 != M))
+    (hexp : toJson W t (some M) = .ok d) (hl : Loaded W t M rank)
+    (hwf : ∀ K s, dictGet? t.items K = some s → modOf K = M → SymOK W t s)
+    (hvia : ∀ K s, dictGet? t.items K = some s → modOf K = M → ViaOK W t s) :
+    ∃ T, importJson W b d = .ok T ∧ (∀ K, dictGet? T.items K = dictGet? t.items K) ∧
+      ∀ kr ∈ d, ∃ s, dictGet? T.items kr.1 = some s ∧ serialize W s = kr.2 :=
+  rt_exact W t b M d hM hb hexp (order W t M d rank hM hl hexp) hwf hvia
+
+/-- non-vacuity: every entry of the example table satisfies `ViaOK` (its round trip is the example after `rt_loaded`: the imported
+    table has the items of the original one) -/
+example : (Ex.ordered.items.all (fun ks => viaOKb Ex.W Ex.ordered ks.2)) = true ∧
+    (Ex.withImport.items.all (fun ks => viaOKb Ex.W2 Ex.withImport ks.2)) = true := by
+  constructor <;> decide +kernel
+
+namespace Ex
+def kY : Str := ['c', '#', 'y']
+/-- a variable `m#x: int` whose `via` key names another VARIABLE (`c#y: int`), not a type key -/
+def viaVar : Table := { items := [(kI, cls kI []), (kY, { types := kI, node := kY, decl := kY, via := kI, attrs := [] }),
+  (kX, { types := kI, node := kX, decl := kX, via := kY, attrs := [] })] }
+def W3 : World := { known := fun _ => true, isClassDef := fun n => n != kX && n != kY, isDecl := fun _ => true, fullyname := id }
+end Ex
+
+/-- the `via` hypothesis is needed: `deserialize` keeps `db[via].types.fullyname`, so a `via` key that names an entry of another
+    type than itself does not come back (every other field does) -/
+example :
+    (viaOKb Ex.W3 Ex.viaVar { types := Ex.kI, node := Ex.kX, decl := Ex.kX, via := Ex.kY, attrs := [] } = false) ∧
+    (match toJson Ex.W3 Ex.viaVar (some Ex.M) with
+      | .ok d =>
+        (match importJson Ex.W3 { items := Ex.viaVar.items.filter (fun ks => modOf ks.1 != Ex.M) } d with
+          | .ok T => (dictGet? T.items Ex.kX).map (fun s => (s.types, s.node, s.decl, s.via, s.attrs))
+          | .error _ => none)
+      | .error _ => none) = some (Ex.kI, Ex.kX, Ex.kX, Ex.kI, []) := by
+  constructor <;> decide +kernel
+
+open Tranp.Generated.SymbolTables in
+/-- the `via` invariant, decided for every module of the generated library table -/
+theorem shipped_via : ∀ M ∈ modules, (table.items.all (fun ks => modOf ks.1 != M || viaOKb world table ks.2)) = true := by
+  decide +kernel
+
+open Tranp.Generated.SymbolTables in
+/-- **Exact round trip of the shipped library modules, without hypotheses**: the table after export and import is the table
+    before, key by key and field by field, and a second export writes the same rows. -/
+theorem shipped_rt_exact (M : Str) (hM : M ∈ modules) (b : Table) (d : List (Str × Row))
+    (hb : b.items = table.items.filter (fun ks => modOf ks.1 != M)) (hexp : toJson world table (some M) = .ok d) :
+    ∃ T, importJson world b d = .ok T ∧ (∀ K, dictGet? T.items K = dictGet? table.items K) ∧
+      ∀ kr ∈ d, ∃ s, dictGet? T.items kr.1 = some s ∧ serialize world s = kr.2 := by
+  obtain ⟨h1, h2, h3⟩ := shipped_invariants M hM
+  exact rt_loaded_exact world table b M d rank h1 hb hexp h2 (symOK_of_check world table M h3)
+    (viaOK_of_check world table M (shipped_via M hM))
 
 end Tranp.C14
